@@ -66,7 +66,7 @@ def run_demo(wt, meta, d):
     dst = os.path.join(wt, meta["demo_pkg_dir"], "zz_seed_demo_test.go")
     shutil.copy(demo_file(d), dst)
     try:
-        return sh(f"go test -vet=off -count=1 -timeout 20m -run 'TestSeedDemo' ./{pkg}/", cwd=os.path.join(wt, mod))
+        return sh(f"go test -vet=off -count=1 -timeout 20m -run 'Seed' ./{pkg}/", cwd=os.path.join(wt, mod))
     finally:
         os.remove(dst)
 
